@@ -26,10 +26,26 @@ type structObl struct {
 //   nodirectcall:<funcKey-list>-><funcKey-list>   (calls in the bodies of the first list only)
 func (eng *Engine) structuralObligations(pc *PropConfig) []structObl {
 	var out []structObl
+	{
+		var fs []string
+		for f := range eng.db.StableFields {
+			fs = append(fs, f)
+		}
+		sort.Strings(fs)
+		for _, f := range fs {
+			// only when the type's package is loaded in this check
+			o := eng.writersObl(f+"="+eng.db.StableFields[f], true)
+			if strings.HasPrefix(o.Detail, "contract-target-missing") {
+				continue
+			}
+			o.Name = "stablefield:" + f + "=" + eng.db.StableFields[f]
+			out = append(out, o)
+		}
+	}
 	for _, s := range pc.Structural {
 		switch {
 		case strings.HasPrefix(s, "writers:"):
-			out = append(out, eng.writersObl(strings.TrimPrefix(s, "writers:")))
+			out = append(out, eng.writersObl(strings.TrimPrefix(s, "writers:"), false))
 		case strings.HasPrefix(s, "mapwriters:"):
 			out = append(out, eng.mapWritersObl(strings.TrimPrefix(s, "mapwriters:")))
 		case strings.HasPrefix(s, "nocall:"):
@@ -61,7 +77,9 @@ func outermost(fn *ssa.Function) *ssa.Function {
 	return fn
 }
 
-func (eng *Engine) writersObl(spec string) structObl {
+// strict additionally rejects (outside the permitted writers) taking the field's address for anything but a
+// load or store, and whole-struct stores through a pointer to the type - needed when the field is declared stable.
+func (eng *Engine) writersObl(spec string, strict bool) structObl {
 	name := "writers:" + spec
 	parts := strings.SplitN(spec, "=", 2)
 	if len(parts) != 2 {
@@ -77,6 +95,38 @@ func (eng *Engine) writersObl(spec string) structObl {
 	for _, fn := range eng.repoFunctions() {
 		for _, b := range fn.Blocks {
 			for _, ins := range b.Instrs {
+				if strict {
+					if fa, ok := ins.(*ssa.FieldAddr); ok {
+						pt := fa.X.Type().Underlying().(*types.Pointer).Elem()
+						if typeKey(pt)+"."+under(pt).(*types.Struct).Field(fa.Field).Name() == target {
+							for _, u := range *fa.Referrers() {
+								switch x := u.(type) {
+								case *ssa.Store:
+									if x.Addr == fa {
+										continue
+									}
+								case *ssa.UnOp, *ssa.DebugRef:
+									continue
+								}
+								if k := funcKey(outermost(fn)); !allowed[k] {
+									bad = append(bad, fmt.Sprintf("%s takes the field's address at %s", k, eng.prog.Fset.Position(fa.Pos())))
+								}
+							}
+						}
+					}
+					if st, ok := ins.(*ssa.Store); ok {
+						if pt, ok := st.Addr.Type().Underlying().(*types.Pointer); ok {
+							i := strings.LastIndexByte(target, '.')
+							if _, isStruct := under(pt.Elem()).(*types.Struct); isStruct && i > 0 && typeKey(pt.Elem()) == target[:i] {
+								if _, isAlloc := st.Addr.(*ssa.Alloc); !isAlloc {
+									if k := funcKey(outermost(fn)); !allowed[k] {
+										bad = append(bad, fmt.Sprintf("%s overwrites a whole %s at %s", k, target[:i], eng.prog.Fset.Position(st.Pos())))
+									}
+								}
+							}
+						}
+					}
+				}
 				st, ok := ins.(*ssa.Store)
 				if !ok {
 					continue
